@@ -217,7 +217,8 @@ def _tree(task):
     states = [([], []), (h1, h1), (h1, h2), (h12, []), ([], h12), (h12, h12)]
     if tier == "quick":
         states = [([], []), (h1, h1), (h1, h2), (h12, [])]
-    nbs = NB.valid_neighbours(spec)
+    # (members exchanged between keys are a C09 neighbour: they are merge-compatible whenever the members have the same shape)
+    nbs = [nb for nb in NB.valid_neighbours(spec) if not nb[0].endswith(".children-exchanged")]
     acc.n("neighbours", len(nbs))
     for label, d, ns in nbs:
         acc.n("neighbour_depth_%d" % d)
